@@ -13,7 +13,8 @@ N_QUICK, N_THOROUGH = 30000, 1000000
 T_QUICK, T_THOROUGH = 70, 1500
 FLOORS = {"dest:same-buffer": 1500, "dest:other-buffer": 1500, "dest:other-context": 1500, "copies_with_refs": 1500,
           "isolation_writes": 20000, "referent_checks": 1500, "seen:ar1sS": 100, "hybrid_copies": 800,
-          "hybrid_referent_checks": 500}
+          "hybrid_referent_checks": 500, "second_copies": 3000, "source_buffers_overwritten": 3000,
+          "big_copies": 100}
 RULE = ("random type AST (references at any depth) x value x placement; T(obj, _buffer=same | other buffer of the "
         "context | _context=other); oracle: copy re-reads equal to the model; bytes written by the copy lie in "
         "allocations made during the copy and are disjoint from the original's extent; every reference in the copy "
@@ -48,6 +49,8 @@ def exts_of(env, t, off):
 def run_case(w, rng):
     if rng.random() < 0.15:
         return run_hybrid_copy(w, rng)
+    if rng.random() < 0.02:
+        return run_big_copy(w, rng)
     c = new_case(w, rng, roots=("st", "ar", "str"))
     t, env = c.t, c.env
     dest = rng.choice(["same-buffer", "other-buffer", "other-context"])
@@ -165,6 +168,28 @@ def run_case(w, rng):
                     bad = True
             if bad:
                 break
+        # 5. a second copy of the (by now modified) source into the same destination: equal to the source as it is
+        #    now, and not the first copy again
+        if not seen and rng.random() < 0.5:
+            try:
+                cp2 = c.cls(src, _buffer=cp._buffer)
+            except Exception as e:
+                viol(f"second-copy-{exc_kind(e)}|{dest}", f"{type(e).__name__}: {e}")
+                cp2 = None
+            if cp2 is not None:
+                w.count("second_copies")
+                for path, kind, detail, sig in compare(t, mvs["original"], cp2, full=False).errs[:2]:
+                    viol(f"second-copy:{kind}|{sig}|{dest}", f"{path}: {detail}")
+                for path, kind, detail, sig in compare(t, mvs["copy"], cp, full=False).errs[:1]:
+                    viol(f"first-copy-changed-by-second-copy:{kind}|{sig}|{dest}", f"{path}: {detail}")
+        # 6. the copy does not depend on the source's storage: in the cross-buffer case the whole source buffer is
+        #    overwritten (as if everything in it had been freed and reused) and the copy is read again
+        if not seen and dest != "same-buffer" and cp._buffer is not src._buffer:
+            n = len(bufmon.raw_bytes(env.buf))
+            bufmon.poke(env.buf, 0, bufmon.poison_pattern(0, n))
+            w.count("source_buffers_overwritten")
+            for path, kind, detail, sig in compare(t, mvs["copy"], cp).errs[:2]:
+                viol(f"copy-depends-on-source-storage:{kind}|{sig}|{dest}", f"{path}: {detail}")
         w.case([shape_sig(t), dest, env.kind, denv.kind], sample=info if c.nontrivial and rng.random() < 0.004 else None,
                nontrivial=c.nontrivial)
     finally:
@@ -287,4 +312,34 @@ def run_hybrid_copy(w, rng):
         env.close()
         if env2 is not None:
             env2.close()
+        flush_contracts(w, info)
+
+
+def run_big_copy(w, rng):
+    """Objects far larger than any staging block, copied between contexts with unequal source / destination offsets."""
+    import xobjects as xo
+    from xv.typegen import _uid
+    n = rng.choice([9000, 20000, 140000])
+    S = type(f"Big{next(_uid)}", (xo.Struct,), {"k": xo.Int64, "a": xo.Float64[:], "z": xo.Int32})
+    env = Env(rng, ctx=ctxs()[0], kind="numpy", neighbours=2, cap=64)
+    info = dict(big_copy=True, n=n)
+    try:
+        env.buf.allocate(rng.choice([8, 24, 104]))
+        vals = np.arange(n, dtype=np.float64) * 0.5 + 1
+        src = S(k=7, a=vals, z=-3, _buffer=env.buf)
+        for dest in ("other-context", "other-buffer"):
+            if dest == "other-context":
+                cp = S(src, _context=ctxs()[1]) if rng.random() < 0.5 else S(src, _buffer=ctxs()[1].new_buffer(capacity=64))
+            else:
+                b2 = ctxs()[0].new_buffer(capacity=rng.choice([64, 1 << 20]))
+                b2.allocate(rng.choice([8, 40]))
+                cp = S(src, _buffer=b2)
+            w.count("big_copies")
+            got = cp.a.to_nparray()
+            if int(cp.k) != 7 or int(cp.z) != -3 or len(got) != n or got.tobytes() != vals.tobytes():
+                bad = int(np.nonzero(got[:min(len(got), n)] != vals[:min(len(got), n)])[0][0]) if len(got) and (got[:min(len(got), n)] != vals[:min(len(got), n)]).any() else -1
+                w.violation(f"big-copy-differs|{dest}", f"n={n}: k={cp.k} z={cp.z} len={len(got)} first differing item {bad}", info)
+        w.case(["big", n], sample=info)
+    finally:
+        env.close()
         flush_contracts(w, info)
